@@ -995,20 +995,10 @@ func (c *callable) Value(env *env) reflect.Value {
 		}
 		err := nvm.runFunc(fn, vars)
 		if err != nil {
-			if p, ok := err.(*PanicError); ok {
-				var msg string
-				for ; p != nil; p = p.next {
-					msg = "\n" + msg
-					if p.recovered {
-						msg = " [recovered]" + msg
-					}
-					msg = p.String() + msg
-					if p.next != nil {
-						msg = "\tpanic: " + msg
-					}
-				}
-				err = &fatalError{msg: msg}
-			}
+			// If err is a *PanicError, the function has panicked and the
+			// panic has not been recovered: as in Go, the panic continues
+			// in the native caller and, if the caller does not recover it,
+			// in the code that called the native function.
 			panic(err)
 		}
 		if fn.Macro {
